@@ -310,8 +310,10 @@ def prepare_dump(data: IOData, allow_changes: bool, filename: str) -> IOData:
         raise PrepareDumpError("The Molekel format requires an orbital basis set.", filename)
     if data.mo.kind == "generalized":
         raise PrepareDumpError("Cannot write Molekel file with generalized orbitals.", filename)
-    if data.mo.occs is not None and abs(data.mo.nelec - np.round(data.mo.nelec)) > 1e-7:
+    if data.mo.occs is not None and abs(data.mo.nelec - np.round(data.mo.nelec)) > 1e-4:
         # $CHAR_MULT holds an integer charge, from which the loader derives the electron count.
+        # (Occupation numbers are printed with 7 decimals: the count of a file written by
+        # this module may be off by the accumulated rounding, which must not be refused.)
         raise PrepareDumpError(
             "Cannot write Molekel file with a fractional number of electrons.", filename
         )
